@@ -43,6 +43,19 @@ def sampler_replay(stream):
         orej += 1
 
 
+def boundary_stream(rng, delta):
+    """first candidate is exactly r + delta (digits of r are (1, 0, |x|-1, |x|-1)); for delta >= 0 it must be rejected and the
+    next candidate taken"""
+    y = R + delta
+    cs = []
+    for i in range(4):
+        cs.append(y % XA)
+        y //= XA
+    assert y == 0
+    s = b''.join(c.to_bytes(8, 'little') for c in cs)
+    return s + b''.join(rng.randrange(XA).to_bytes(8, 'little') for _ in range(3)) + rng.randrange(XA // 2).to_bytes(8, 'little')
+
+
 def make_stream(rng, digit_rej, outer_rej):
     """byte stream that forces the requested numbers of rejections before an acceptable draw"""
     def digit(v, nrej):
@@ -109,6 +122,13 @@ def worker(sh):
         g.add('gt.mulrandip %s %s' % (enc[t], stream.hex()), 'rand', t, stream)
         g.add('rc.pox.random %s' % stream.hex(), 'prand', stream)
         g.add('c.wkd_random_gt %s' % stream.hex(), 'wkdgt', stream)
+    if sh.index < 6:
+        for delta in (0, -1, 1, 0):
+            stream = boundary_stream(rng, delta)
+            t = rng.choice(logs[1:])
+            g.add('gt.mulrand %s %s' % (enc[t], stream.hex()), 'rand', t, stream)
+            g.add('rc.pox.random %s' % stream.hex(), 'prand', stream)
+            g.add('c.wkd_random_gt %s' % stream.hex(), 'wkdgt', stream)
     for _ in range(sh.pick(4, 60)):
         stream = rng.getrandbits(8 * 8 * 40).to_bytes(8 * 40, 'little')
         g.add('gt.mulrand %s %s' % (enc[rng.choice(logs)], stream.hex()), 'rand', logs[0], stream)
@@ -184,6 +204,9 @@ def worker(sh):
                 else:
                     ey, ecs, epos, drej, orej = rep
                     cls = 'digit-rej%d/outer-rej%d' % (min(drej, 9), orej)
+                    first = sum(int.from_bytes(stream[8 * i:8 * i + 8], 'little') * XA ** i for i in range(4)) if len(stream) >= 32 else None
+                    if first is not None and abs(first - R) <= 1:
+                        cls += '/first-candidate=r%+d' % (first - R)
                     if y is not None and (y != ey or consumed != epos):
                         fail('exponent is not what the specified rejection sampler yields on this byte stream (expected %x, consumed %d)' % (ey, epos), 'sampler:%s:replay' % name)
                     if y is None and consumed != epos:
@@ -213,7 +236,8 @@ def run(ctx):
                 'class = (routine, scalar class, rejection counts)')
     ctx.extra['configs'] = cfgs
     ctx.assumptions = ['Python integer arithmetic', 'oracle/bls.py (E0 by the definitional pairing)', 'every GT element is a power of E0 (group of prime order r)']
-    need = ['gt_multiply(result==base)|', 'exponentiate_gt_nodiv(in place)|', 'gt_multiply|k>=2r', 'gt_multiply|k=r', 'gt_multiply|k=0', 'gt_multiply|k>=2^256-33', 'exponentiate_gt_nodiv|', 'gt_multiply_random|digit-rej9', 'gt_multiply_random|digit-rej0/outer-rej1',
+    need = ['gt_multiply_random|digit-rej0/outer-rej1/first-candidate=r+0', 'gt_multiply_random|digit-rej0/outer-rej0/first-candidate=r-1', 'PowersOfX::random|digit-rej0/outer-rej1/first-candidate=r+0',
+            'gt_multiply(result==base)|', 'exponentiate_gt_nodiv(in place)|', 'gt_multiply|k>=2r', 'gt_multiply|k=r', 'gt_multiply|k=0', 'gt_multiply|k>=2^256-33', 'exponentiate_gt_nodiv|', 'gt_multiply_random|digit-rej9', 'gt_multiply_random|digit-rej0/outer-rej1',
             'gt_multiply_random|digit-rej0/outer-rej2', 'PowersOfX::random|digit-rej0/outer-rej1', 'wkdibe_random_gt|', 'gt_double|generic', 'gt_negate|generic', 'exponentiate_gt(PowersOfX)|']
     for r in need:
         if not any(k.startswith(r) for k in ctx.classes):
